@@ -26,7 +26,7 @@ THEOREMS = ['PV.C10.' + t for t in [
   'no_width_error', 'stmt_no_width_error', 'block_no_width_error', 'explicit_mismatch_rejected',
   'assign_mismatch_rejected', 'mismatch_raises', 'check_implies_WT', 'check_implies_WT_stmt',
   'F4_counterexample', 'F12_counterexample', 'F12_negative_counterexample', 'N1_counterexample',
-  'N2_counterexample', 'N3_counterexample', 'N4_counterexample',
+  'N2_counterexample', 'N3_counterexample', 'N4_counterexample', 'N5_counterexample',
 ]]
 TRUSTED = [
   'Model/TC.lean follows BehavioralRTLIRTypeCheckL1/L2Pass (visitor + enforcer), RTLIRDataType._get_nbits_from_value / get_index_width; '
@@ -42,18 +42,20 @@ ASSUMPTIONS = [
   'not modelled: / ** unary + (no Bits method: TypeError), struct fields, interfaces, sub-component ports, arrays, <<= in update_ff '
   '(same __ilshift__ checks as @=), widths >= 1024',
   'theorems need the block to be clean (Model/TCSpec.lean): every excluded shape is either an exclusion of the property itself '
-  '(width-changing cast, misaligned shift) or a soundness hole of the checker with a Lean counter-example (F4, F12, N1..N4) or '
+  '(width-changing cast, misaligned shift) or a soundness hole of the checker with a Lean counter-example (F4, F12, N1..N5) or '
   'a shape outside the proof only (lo:lo+N slices, non-integer constant slice bounds, widths >= 1024)',
 ]
 RULE = ('streams: typed (type-directed terms, no injected defects), noisy (same with width/literal defects injected at each choice point), '
-        'wild (unconstrained small terms, mostly rejected), one labelled stream per known hole (F4, F12, N1..N4), directed corpus; '
+        'wild (unconstrained small terms, mostly rejected), one labelled stream per known hole (F4, F12, N1..N5), directed corpus; '
         'signal values boundary-biased; non-trivial = elaborated and checked by the real passes; distinct = distinct case tuple')
 
 FINDING_OF_ISSUE = [('rhsWide', 'F4-implicit-rhs-too-wide'), ('implArith', 'F12-implicit-arith'),
                     ('tmpFlip', 'N1-tmpvar-explicit-flip'), ('iteWidth', 'N2-ifexp-implicit-orelse-wider'),
-                    ('explFold', 'N3-explicit-const-fold'), ('softArith', 'N4-soft-int-arith')]
+                    ('explFold', 'N3-explicit-const-fold'), ('softArith', 'N4-soft-int-arith'),
+                    ('iteBool', 'N5-ifexp-bool-branch')]
 FINDING_OF_STREAM = {'F4': 'F4-implicit-rhs-too-wide', 'F12': 'F12-implicit-arith', 'N1': 'N1-tmpvar-explicit-flip',
-                     'N2': 'N2-ifexp-implicit-orelse-wider', 'N3': 'N3-explicit-const-fold', 'N4': 'N4-soft-int-arith'}
+                     'N2': 'N2-ifexp-implicit-orelse-wider', 'N3': 'N3-explicit-const-fold', 'N4': 'N4-soft-int-arith',
+                     'N5': 'N5-ifexp-bool-branch'}
 
 # ------------------------------------------------------------------ real side
 
@@ -364,6 +366,9 @@ def process(ck, cases, nvec):
       w = Walk(); w.stmts([], c['block'], rtlir.body, res['mas'])
       res['walk'] = w; res['excl'] = excluded(w)
       ck.hist('rtlir_nodes_compared', min(60, w.nodes // 5 * 5))
+      ck.hist('accepted_blocks', 'clean' if not res['issues'] else '+'.join(sorted(res['issues'])))
+      def see(e): ck.hist('node_kinds_in_accepted', e[0] if e[0] not in ('bin', 'un', 'ext') else e[0] + ':' + e[1])
+      for ex, _ in G.top_exprs(c['block']): G.walk_exprs(ex, see)
     elif verdict == 'ok':
       # model rejected, real accepted: still need the real annotations for the oracle
       res['walk'] = None
@@ -384,7 +389,8 @@ def process(ck, cases, nvec):
           res.setdefault('width_viol', []).append((G.render(c, g), sw, int(v.nbits)))
     # (3) simulation
     if verdict == 'ok':
-      vectors = [{x: rand_value(rng, w) for x, w, d in c['sigs'] if d == 'in'} for _ in range(nvec)]
+      vectors = [{x: 0 for x, w, d in c['sigs'] if d == 'in'}, {x: (1 << w) - 1 for x, w, d in c['sigs'] if d == 'in'}]
+      vectors += [{x: rand_value(rng, w) for x, w, d in c['sigs'] if d == 'in'} for _ in range(nvec)]
       sims = simulate(cls, c, vectors)
       res['sims'] = sims
       for init, r in sims:
@@ -530,6 +536,8 @@ def corpus():
     mk(5, io4, [['asg', S(3, 4), ['bin', 'add', S(0, 4), ['ite', S(2, 1), N(1), N(200)]]]], 'N2'),
     mk(6, [[0, 3, 'out']], [['asg', S(0, 3), ['bin', 'add', ['cast', 8, N(3), 'call'], N(1)]]], 'N3'),
     mk(7, io8, [['asg', S(3, 8), ['bin', 'add', ['ite', S(2, 1), S(0, 8), N(200)], ['ite', S(2, 1), S(1, 8), N(100)]]]], 'N4'),
+    mk(29, [[0, 8, 'in'], [1, 8, 'in'], [2, 1, 'in'], [3, 1, 'out']],
+       [['asg', S(3, 1), ['ite', S(2, 1), ['cmp', 'lt', S(0, 8), S(1, 8)], S(1, 8)]]], 'N5'),
     # ordinary accepted shapes
     mk(8, io8, [['asg', S(3, 8), ['bin', 'add', S(0, 8), N(255)]]]),
     mk(9, io8, [['asg', S(3, 8), ['ite', S(2, 1), S(0, 8), N(0)]]]),
@@ -578,7 +586,7 @@ def run(ck):
     batch(per, lambda u: G.gen_typed(rng, u, 0.0, 'typed'))
     batch(per // 2, lambda u: G.gen_typed(rng, u, 0.08, 'noisy'))
     batch(per // 2, lambda u: G.gen_wild(rng, u))
-    for which in ('F4', 'F12', 'N1', 'N2', 'N3', 'N4'):
+    for which in ('F4', 'F12', 'N1', 'N2', 'N3', 'N4', 'N5'):
       batch(6 if quick else 20, lambda u: G.gen_finding(rng, u, which))
     if len(ck.breaks) > 50 or sum(1 for v in ck.violations if v.signature.get('finding') in ('unexplained', 'literal-width')) > 20: break
 
